@@ -65,10 +65,10 @@ CHECKS = {
 # parts added after the fourth round of seeded changes (appended to the level text)
 ADDED = {
  "C01": " Added later: a message-length ladder (every length 0..=600, thorough 0..=2100, and lengths around 2^12..2^18) and tight-fit signatures (Falcon-1024 signatures whose compressed s2 leaves 0..8 bits of the body unused; thorough: a window of 60000 signer streams).",
- "C02": " Added later: a message-length ladder of triples at the bound and one above; every unary run length 0..95 at every cursor alignment (s2 = +-(128 r + low) X^j).",
+ "C02": " Added later: a message-length ladder of triples at the bound and one above; every unary run length 0..95 at every cursor alignment (s2 = +-(128 r + low) X^j); E5 program `verify` (three threads verifying valid and invalid pairs under shared key objects, all schedules up to the preemption bound).",
  "C03": " Added later: the full unary-run ladder 0..=130 at every alignment; verify under every scripted shape of HashToPoint's XOF stream (runs of up to 2048 rejected chunks, many rejections spread out, periodic rejections) through the XOF hook.",
  "C04": " Added later: steering seeds on which an invertible candidate misses the Gram-Schmidt bound by less than 1 (confirmed by a reference walk at run time); the Gram-Schmidt quantity of key generation as a component against the definition on 64 (thorough 512) first candidates per variant.",
- "C05": " Added later: runs of zero coefficients (length 1..24, 32, 40, 64 x start position) in f, g, F through the reference encoder, from_bytes and to_bytes.",
+ "C05": " Added later: runs of zero coefficients (length 1..24, 32, 40, 64 x start position) in f, g, F through the reference encoder, from_bytes and to_bytes; E5 program `decode` (three threads decoding, re-encoding and signing concurrently).",
  "C06": " Added later: the reserved value at every subset of size 2 and 3 of 12 secret-key field positions; out-of-range values at every pair of 6 public-key positions.",
  "C07": " Added later: S6 - every sequence of 2..4 (thorough 5) coefficient tokens over a 10-token alphabet with invalid tokens, and every pair of tokens at 9 positions of a production-size body.",
  "C08": " Added later: a message-length ladder (every length 0..=1100, thorough 0..=4200, and lengths around 2^13..2^20); salt entropy by information flow: with the generator replaced by a fixed word stream, at least 320 of its first 2048 bits must influence the salt.",
@@ -119,7 +119,7 @@ def main():
         "engines": [
             {"name": "falcon-mc", "path": "/verif/harness", "serves_properties": sorted(CHECKS),
              "kind_free_text": "Rust harness linked against the real falcon-rust crate (hooks on): exhaustive input enumeration (E1/E2), deviation-bounded environment-answer exploration (E3), call-level schedule/history exploration on real threads and fresh child processes with a differential oracle (E4); reference models in harness/src/refmodel; PQClean (vendored C) as third-source oracle"},
-            {"name": "falcon-mc-shuttle", "path": "/verif/shuttle/driver", "serves_properties": ["C01", "C08", "C15"],
+            {"name": "falcon-mc-shuttle", "path": "/verif/shuttle/driver", "serves_properties": ["C01", "C02", "C05", "C08", "C15"],
              "kind_free_text": "E5: shuttle DFS over all schedules of 2-3 threads calling sign/keygen on an instrumented copy of the library sources (tools/instrument.py rewrites std::sync, std::thread, thread_local!, lazy_static!, OnceLock/LazyLock to shuttle's), differential oracle against the same calls run alone"},
         ],
         "checks": checks,
